@@ -170,6 +170,10 @@ package evaluator
 //@   call Eval#0: assert block-insert-with-the-data-of-the-call: arg1 == iface(node.Insert.Block) && arg2 == env
 //@   call Eval#1: assert expression-insert-with-the-data-of-the-call: arg1 == node.Insert.Argument && arg2 == env
 //@   goal no-insert-renders-nothing: node.Insert == nil ==> result == iface(NIL)
+//@   call Eval#0: bind blockValue
+//@   call Eval#1: bind argValue
+//@   goal block-insert-is-the-evaluated-body: istype(result, *object.Reserve) && node.Insert != nil && node.Insert.Block != nil ==> as(result, *object.Reserve).Content == blockValue
+//@   goal expression-insert-is-the-evaluated-argument: istype(result, *object.Reserve) && node.Insert != nil && node.Insert.Block == nil ==> as(result, *object.Reserve).Argument == argValue
 //@   call newError#*: assert error-carries-the-insert: arg1 == iface(node.Insert)
 //@   requires node != nil && WFNode(iface(node)) && env != nil
 //@   use wfReserveStmt(node)
@@ -357,9 +361,9 @@ package evaluator
 
 //@ func (e *Evaluator) evalExpressions
 //@   requires env != nil && forall(k, 0, len(exps), WFN(exps[k]))
-//@   ensures len(result) == 1 && istype(result[0], *object.Error) || len(result) == len(exps)
+//@   ensures the-error-alone-or-every-value: len(result) == 1 && istype(result[0], *object.Error) || len(result) == len(exps) && forall(k, 0, len(result), !isErr(result[k]))
 //@   modifies contents(env.store)
-//@   loop 0: invariant len(result) == rangeindex + 1 && rangeindex + 1 <= len(exps)
+//@   loop 0: invariant len(result) == rangeindex + 1 && rangeindex + 1 <= len(exps) && forall(k, 0, len(result), !isErr(result[k]))
 
 //@ func (e *Evaluator) evalInfixExp
 //@   return 0: assert error-passed-through-unchanged: result == leftObj
@@ -381,10 +385,14 @@ package evaluator
 
 // C12: a key of the object is reachable under exactly its own spelling (also the empty key);
 // a missing key is an error unless the spelling with an upper-case first letter exists
+// C12: the lower-case alias of a field: the name with its first letter upper-cased (every letter, by strings.ToUpper)
+//@ spec capKey(s string) string = lib("strings.ToUpper", s[0:1]) + s[1:len(s)]
 //@ func (e *Evaluator) evalObjectIndexExp
 //@   call newError#*: assert error-carries-the-construct: arg1 == node
 //@   goal exact-key-wins: has(as(obj, *object.Obj).Pairs, idx) ==> result == as(obj, *object.Obj).Pairs[idx]
 //@   goal missing-key: !has(as(obj, *object.Obj).Pairs, idx) && idx == "" ==> isErr(result)
+//@   goal capitalised-name-is-the-fallback: !has(as(obj, *object.Obj).Pairs, idx) && idx != "" && has(as(obj, *object.Obj).Pairs, capKey(idx)) ==> result == as(obj, *object.Obj).Pairs[capKey(idx)]
+//@   goal neither-spelling-is-an-error: !has(as(obj, *object.Obj).Pairs, idx) && idx != "" && !has(as(obj, *object.Obj).Pairs, capKey(idx)) ==> isErr(result)
 //@   requires obj != nil && istype(obj, *object.Obj) && node != nil
 //@   ensures result != nil
 //@   modifies nothing
@@ -692,8 +700,19 @@ package evaluator
 //@   requires receiver != nil && istype(receiver, *object.Bool)
 //@   ensures result1 == nil ==> result0 != nil
 //@   modifies nothing
+// C11: decimal on a receiver that reads as an integer appends the separator given (any
+// string, also the empty one; "." when none is given) and as many zeros as asked (2 when not
+// said, none for a count below one); any other receiver text is returned as it is
+//@ spec decimalOf(v string, sep string, n int) string = ite(n <= 0, v, v + sep + lib("strings.Repeat", "0", n))
 //@ func addDecimals
 //@   ints wrap64
+//@   return 0: assert text-that-is-no-integer-is-returned-unchanged: objType == object.STR_OBJ ==> result1 == nil && istype(result0, *object.Str) && as(result0, *object.Str).Value == as(receiver, *object.Str).Value
+//@   goal unchanged-or-the-given-separator-and-zeros: objType == object.STR_OBJ && result1 == nil && len(args) >= 1 ==> istype(result0, *object.Str) && (as(result0, *object.Str).Value == as(receiver, *object.Str).Value
+//@        || as(result0, *object.Str).Value == decimalOf(as(receiver, *object.Str).Value, as(args[0], *object.Str).Value, ite(len(args) == 1, 2, intOf(args[1]))))
+//@   goal unchanged-or-a-point-and-two-zeros: objType == object.STR_OBJ && result1 == nil && len(args) == 0 ==> istype(result0, *object.Str) && (as(result0, *object.Str).Value == as(receiver, *object.Str).Value
+//@        || as(result0, *object.Str).Value == decimalOf(as(receiver, *object.Str).Value, ".", 2))
+//@   return 6: assert integer-text-gets-the-separator-and-zeros: objType == object.STR_OBJ ==> as(result0, *object.Str).Value == decimalOf(as(receiver, *object.Str).Value, ite(len(args) == 0, ".", as(args[0], *object.Str).Value), ite(len(args) <= 1, 2, intOf(args[1])))
+//@   goal wrong-argument-kinds-are-errors-or-the-text-unchanged: result1 == nil && objType == object.STR_OBJ && (len(args) > 2 || (len(args) >= 1 && !istype(args[0], *object.Str)) || (len(args) == 2 && !istype(args[1], *object.Int))) ==> as(result0, *object.Str).Value == as(receiver, *object.Str).Value
 //@   requires receiver != nil && (objType == object.STR_OBJ ==> istype(receiver, *object.Str)) && (objType == object.INT_OBJ ==> istype(receiver, *object.Int))
 //@   ensures result1 == nil ==> result0 != nil
 //@   modifies nothing
